@@ -263,12 +263,17 @@ func (c15Domains) GenesisDomain(_ context.Context, t phase0.DomainType) (phase0.
 type c15Accounts struct {
 	all     map[phase0.ValidatorIndex]*c15Acct
 	missing map[phase0.ValidatorIndex]bool
+	// exited: validators that have exited and are not yet withdrawable: no longer among the validating accounts,
+	// still among the accounts eligible for sync committee duty
+	exited map[phase0.ValidatorIndex]bool
 }
 
 func (t *c15Accounts) ValidatingAccountsForEpoch(_ context.Context, _ phase0.Epoch) (map[phase0.ValidatorIndex]e2wtypes.Account, error) {
 	out := map[phase0.ValidatorIndex]e2wtypes.Account{}
 	for i, a := range t.all {
-		out[i] = a
+		if !t.exited[i] {
+			out[i] = a
+		}
 	}
 	return out, nil
 }
@@ -276,15 +281,19 @@ func (t *c15Accounts) ValidatingAccountsForEpoch(_ context.Context, _ phase0.Epo
 func (t *c15Accounts) ValidatingAccountsForEpochByIndex(_ context.Context, _ phase0.Epoch, idx []phase0.ValidatorIndex) (map[phase0.ValidatorIndex]e2wtypes.Account, error) {
 	out := map[phase0.ValidatorIndex]e2wtypes.Account{}
 	for _, i := range idx {
-		if a, ok := t.all[i]; ok {
+		if a, ok := t.all[i]; ok && !t.exited[i] {
 			out[i] = a
 		}
 	}
 	return out, nil
 }
 
-func (t *c15Accounts) SyncCommitteeAccountsForEpoch(ctx context.Context, e phase0.Epoch) (map[phase0.ValidatorIndex]e2wtypes.Account, error) {
-	return t.ValidatingAccountsForEpoch(ctx, e)
+func (t *c15Accounts) SyncCommitteeAccountsForEpoch(_ context.Context, _ phase0.Epoch) (map[phase0.ValidatorIndex]e2wtypes.Account, error) {
+	out := map[phase0.ValidatorIndex]e2wtypes.Account{}
+	for i, a := range t.all {
+		out[i] = a
+	}
+	return out, nil
 }
 
 func (t *c15Accounts) SyncCommitteeAccountsForEpochByIndex(_ context.Context, _ phase0.Epoch, idx []phase0.ValidatorIndex) (map[phase0.ValidatorIndex]e2wtypes.Account, error) {
@@ -657,6 +666,10 @@ func c15WindowBody(st *c15WinState, epp, fork, s0 uint64) {
 		w.duties.strict = st.strict
 		w.duties.member = st.membership
 		w.duties.armed = st.mode == "S" // mode D: the node has no duties for anybody while vouch starts
+		if len(st.members) >= 2 {
+			// the last member has exited and is not yet withdrawable: still on sync committee duty
+			w.accts.exited = map[phase0.ValidatorIndex]bool{st.members[len(st.members)-1]: true}
+		}
 	}})
 	defer w.cancel()
 	if st.mode != "S" {
@@ -684,7 +697,7 @@ func c15WindowBody(st *c15WinState, epp, fork, s0 uint64) {
 			ps = append(ps, fmt.Sprint(p))
 		}
 	}
-	st.desc = fmt.Sprintf("EPOCHS_PER_SYNC_COMMITTEE_PERIOD=%d SLOTS_PER_EPOCH=%d ALTAIR_FORK_EPOCH=%d, clock at the start of slot %d (epoch %d), mode %s, members %v in the committee of period(s) %s, strict-node=%v",
+	st.desc = fmt.Sprintf("EPOCHS_PER_SYNC_COMMITTEE_PERIOD=%d SLOTS_PER_EPOCH=%d ALTAIR_FORK_EPOCH=%d, clock at the start of slot %d (epoch %d), mode %s, members %v (of several, the last has exited and is not yet withdrawable) in the committee of period(s) %s, strict-node=%v",
 		epp, c15SPE, fork, s0, e0, st.mode, st.members, strings.Join(ps, ","), st.strict)
 }
 
